@@ -408,6 +408,92 @@ theorem call_whole_float_hop (dflt : α) (s h : Nat) (hs0 : 0 < s) (hs : (s : In
           simp [fullEvents, hn]
         simp [this, hn]
 
+/-- **C08.9e (`size = 0`)**: no block in the loop; one EMPTY block when the source ends, iff more than
+`max(-hop, 0)` items came. -/
+theorem call_size_zero (dflt : α) (h : Int) (padval : Option α) (xs : List α) :
+    blocksCall dflt (.int 0) (.int h) padval true xs .fail = ⟨[], .srcFail, xs.length⟩ ∧
+    blocksCall dflt (.int 0) (.int h) padval true xs .stop =
+      (if -h < (xs.length : Int) ∧ 0 < xs.length then ⟨[(xs.length, [])], .stop, xs.length⟩
+       else ⟨[], .stop, xs.length⟩) := by
+  have hq := gloopEv_quiet 0 (-1) (-h) true xs (⟨[], 0, true⟩ : GState Int α) 0 (by simp) (by left; simp)
+  have hp : pushAll 0 ([] : List α) xs = [] := by
+    rw [pushAll_eq 0 xs [] (by simp)]; simp [lastSz]
+  dsimp only at hq
+  rw [hp] at hq
+  have hcall : ∀ e, blocksCall dflt (.int 0) (.int h) padval true xs e =
+      grun 0 (-1) (-h) true Int.toNat (padval.getD dflt) xs e := by
+    intro e; simp [blocksCall, initSize, initHop, maxSsize]
+  constructor
+  · rw [hcall]; simp only [grun, hq]
+  · rw [hcall]
+    simp only [grun, hq, gtail, Int.zero_add]
+    by_cases hc : -h < (xs.length : Int) ∧ 0 < xs.length
+    · have hc' : -h < (xs.length : Int) ∧ (0 : Int) < (xs.length : Int) := ⟨hc.1, by omega⟩
+      simp [hc, hc', padTo]
+    · have hc' : ¬ (-h < (xs.length : Int) ∧ (0 : Int) < (xs.length : Int)) := fun hx => hc ⟨hx.1, by omega⟩
+      simp [hc, hc']
+
+/-- **C08.9f (`hop ≤ 0`)**: the loop hands out block 0 (the first `size` items `a ++ [x]`) and then NOTHING,
+however many items follow (an endless source is read for ever: the `.fail` line holds for every `rest`);
+when the source ends, the last `size` items come out once more iff more than `size` items came.  With the
+same hop spelled as a float, that last block is refused (TypeError). -/
+theorem call_hop_nonpos (dflt : α) (a : List α) (x : α) (rest : List α)
+    (hs : ((a.length + 1 : Nat) : Int) ≤ maxSsize) (h : Int) (hh : h ≤ 0) (padval : Option α) :
+    blocksCall dflt (.int (a.length + 1 : Nat)) (.int h) padval true (a ++ x :: rest) .fail =
+      ⟨[(a.length + 1, a ++ [x])], .srcFail, (a ++ x :: rest).length⟩ ∧
+    blocksCall dflt (.int (a.length + 1 : Nat)) (.int h) padval true (a ++ x :: rest) .stop =
+      (if rest = [] then ⟨[(a.length + 1, a ++ [x])], .stop, (a ++ x :: rest).length⟩
+       else ⟨[(a.length + 1, a ++ [x]), ((a ++ x :: rest).length, lastSz (a.length + 1) (a ++ x :: rest))],
+              .stop, (a ++ x :: rest).length⟩) ∧
+    blocksCall dflt (.int (a.length + 1 : Nat)) (.flt (h : Int)) padval true (a ++ x :: rest) .stop =
+      (if rest = [] then ⟨[(a.length + 1, a ++ [x])], .stop, (a ++ x :: rest).length⟩
+       else ⟨[(a.length + 1, a ++ [x])], .err .typeError, (a ++ x :: rest).length⟩) := by
+  have h1 : ¬ (((a.length + 1 : Nat) : Int) < 0) := by omega
+  have h2 : ¬ (maxSsize < ((a.length + 1 : Nat) : Int)) := by omega
+  have hsz : initSize (.int ((a.length + 1 : Nat) : Int)) = .ok (a.length + 1) := by
+    simp only [initSize, if_neg h1, if_neg h2, Int.toNat_natCast]
+  have c1' : ∀ n : Nat, (n : Rat) - 1 = ((((n : Nat) : Int) - 1 : Int) : Rat) := by
+    intro n; simp [Rat.intCast_sub, Rat.intCast_natCast]
+  have c2' : ∀ n : Nat, (n : Rat) - ((h : Int) : Rat) = ((((n : Nat) : Int) - h : Int) : Rat) := by
+    intro n; simp [Rat.intCast_sub, Rat.intCast_natCast]
+  have c1 := c1' (a.length + 1)
+  have c2 := c2' (a.length + 1)
+  have hcond : ∀ n : Nat, (((a.length + 1 : Nat) : Int) - h < ((a.length + 1 : Nat) : Int) - h + (n : Int) ∧
+      (0 : Int) < ((a.length + 1 : Nat) : Int) - h + (n : Int)) ↔ n ≠ 0 := by
+    intro n; omega
+  have hpad : ∀ n : Nat, a.length + 1 - (((a.length + 1 : Nat) : Int) - h + (n : Int)).toNat = 0 := by
+    intro n; omega
+  refine ⟨?_, ?_, ?_⟩
+  · simp only [blocksCall, hsz, initHop, Bool.not_true, if_false, grun, gloopEv_nonpos a x rest h hh]
+    simp
+  · simp only [blocksCall, hsz, initHop, Bool.not_true, if_false, grun, gloopEv_nonpos a x rest h hh, gtail]
+    by_cases hr : rest = []
+    · subst hr; simp
+    · have hn : rest.length ≠ 0 := by simpa using hr
+      simp only [if_pos ((hcond rest.length).mpr hn), hpad, padTo, if_neg hr]
+      simp
+  · simp only [blocksCall, hsz, initHop, Bool.not_true, if_false]
+    rw [c1, c2, grun_rat]
+    simp only [grun, gloopEv_nonpos a x rest h hh, gtail]
+    by_cases hr : rest = []
+    · subst hr; simp
+    · have hn : rest.length ≠ 0 := by simpa using hr
+      simp only [if_pos ((hcond rest.length).mpr hn), if_neg hr]
+      simp
+
+/-- `hop ≤ 0` and fewer than `size` items: no block at all (no padded block either) -/
+theorem call_hop_nonpos_short (dflt : α) (s : Nat) (hs : (s : Int) ≤ maxSsize) (h : Int) (hh : h ≤ 0)
+    (padval : Option α) (xs : List α) (hx : xs.length < s) :
+    blocksCall dflt (.int s) (.int h) padval true xs .stop = ⟨[], .stop, xs.length⟩ := by
+  have h1 : ¬ ((s : Int) < 0) := by omega
+  have h2 : ¬ (maxSsize < (s : Int)) := by omega
+  have hsz : initSize (.int (s : Int)) = .ok s := by simp only [initSize, if_neg h1, if_neg h2, Int.toNat_natCast]
+  have hq := gloopEv_quiet s ((s : Int) - 1) ((s : Int) - h) true xs (⟨[], 0, true⟩ : GState Int α) 0 (by simp)
+    (by right; show (0 : Int) + xs.length ≤ (s : Int) - 1; omega)
+  have hc : ¬ ((s : Int) - h < (0 : Int) + xs.length ∧ (0 : Int) < (0 : Int) + xs.length) := by omega
+  simp only [blocksCall, hsz, initHop, Bool.not_true, if_false, grun, hq, gtail, if_neg hc]
+  simp
+
 /-! ## A caller that changes the yielded deque in ANY way (length too), operations that fail -/
 
 /-- **C08.6b**: when `hop ≥ size` nothing the caller does to a yielded deque (append, pop, clear, …:
@@ -482,6 +568,54 @@ theorem zero_pad_call_refused (dflt : α) (l : Nat) (left right : Num) (hl : ∀
   · cases right with
     | int i => exact absurd rfl (hr i)
     | _ => simp [zeroPadCall, zeroPadTrace, rangeCount]
+
+
+/-- **C08.2f**: the call of `zero_pad` for EVERY spelling of `left` / `right`, every subset of defaults,
+iterable or not, source ending or failing, is the table `zeroPadCallSpec` (items, read counts, ending). -/
+theorem zero_pad_call_eq_spec (dflt : α) (left right : Option Num) (zero : Option α) (it : Bool)
+    (xs : List α) (e : Ending) :
+    (zeroPadCall dflt left right zero it xs e).out.map Prod.snd = (zeroPadCallSpec dflt left right zero it xs e).1 ∧
+    (zeroPadCall dflt left right zero it xs e).out.map Prod.fst = (zeroPadCallSpec dflt left right zero it xs e).2.1 ∧
+    (zeroPadCall dflt left right zero it xs e).ending = (zeroPadCallSpec dflt left right zero it xs e).2.2 := by
+  have hA : List.map (fun x : Nat × α => x.snd) ((List.range xs.length).zip xs) = xs := by
+    have := List.map_snd_zip (l₁ := List.range xs.length) (l₂ := xs) (by simp)
+    simpa using this
+  have hB : List.map (fun x : Nat × α => x.fst + 1) ((List.range xs.length).zip xs) =
+      List.map (fun x => x + 1) (List.range xs.length) := by
+    have := List.map_fst_zip (l₁ := List.range xs.length) (l₂ := xs) (by simp)
+    calc List.map (fun x : Nat × α => x.fst + 1) ((List.range xs.length).zip xs)
+        = List.map (fun x => x + 1) (List.map Prod.fst ((List.range xs.length).zip xs)) := by
+          rw [List.map_map]; rfl
+      _ = _ := by rw [this]
+  unfold zeroPadCall zeroPadCallSpec
+  cases hl : left.getD (.int 0) with
+  | int l =>
+    simp only [rangeCount]
+    cases it with
+    | false => simp
+    | true =>
+      cases e with
+      | fail => simp [hA, hB, Function.comp_def]
+      | stop =>
+        cases hr : right.getD (.int 0) <;> simp [hA, hB, Function.comp_def]
+  | _ => simp [rangeCount]
+
+-- PENDING (stated, run against the code on every check through the driver's "spec", not proved):
+
+/-- the whole table of `Spec/C08Call.lean` in one equation; proved class by class above
+(`call_size_refused`, `call_hop_seq_refused`, `call_int` + `trace_fail`/`trace_stop`, `call_whole_float_hop`,
+`call_size_zero`, `call_hop_nonpos`, `call_hop_nonpos_short`) except for the float / Fraction hops that are not
+whole numbers and the whole non-positive ones on short inputs -/
+def blocksCall_eq_spec_PENDING : Prop :=
+  ∀ (α : Type) (dflt : α) (size hop : Num) (padval : Option α) (it : Bool) (xs : List α) (e : Ending),
+    blocksCall dflt size hop padval it xs e = blocksCallSpec dflt size hop padval it xs e
+
+/-- `hop ≤ size`, a caller that changes the yielded deque in any way: every block is the last `size` of what
+the caller left followed by the next `hop` items (`mutSpecG`) -/
+def blocks_mut_any_eq_spec_PENDING : Prop :=
+  ∀ (α : Type) (size hop : Nat), 0 < size → 0 < hop → hop ≤ size →
+    ∀ (pad : α) (edit : Nat → List α → List α) (xs : List α),
+      blocksMut size hop pad edit xs = mutSpecG size hop pad edit xs
 
 /-- non-vacuity: hypotheses satisfiable, statement about a non-trivial input -/
 example : blocks 4 2 (0:Nat) [100,101,102,103,104] = [[100,101,102,103],[102,103,104,0]] := by decide
